@@ -33,6 +33,7 @@ static KSI_MetaData *mk_md(const char *cidhex) {
 	return md;
 }
 
+static KSI_DataHash *g_root; static unsigned g_rootLevel;
 static void dump_leaf(size_t k, KSI_TreeLeafHandle *lh) {
 	KSI_AggregationHashChain *ch = NULL; KSI_TreeNode *node = NULL; KSI_LIST(KSI_HashChainLink) *links = NULL; size_t i, n;
 	KSI_TreeLeafHandle_getTreeNode(lh, &node);
@@ -61,6 +62,13 @@ static void dump_leaf(size_t k, KSI_TreeLeafHandle *lh) {
 			if (KSI_TlvElement_serialize(md->impl, buf, sizeof(buf), &len, KSI_TLV_OPT_NO_HEADER) == KSI_OK) puthex(stdout, buf, len); else printf("SERFAIL");
 		} else printf("?:-");
 	}
+	/* the library's own aggregation of the chain it handed out must reproduce its root */
+	if (node && node->hash && g_root && n > 0) {   /* an empty chain (single-leaf tree) has nothing to aggregate */
+		KSI_DataHash *out = NULL; int end = -1;
+		int r = KSI_AggregationHashChain_aggregate(ch, (int)node->level, &end, &out);
+		printf("/A%d:%d", r, (r == KSI_OK && end == (int)g_rootLevel && KSI_DataHash_equals(out, g_root)) ? 1 : 0);
+		KSI_DataHash_free(out);
+	} else printf("/A-");
 	KSI_AggregationHashChain_free(ch);
 }
 
@@ -93,6 +101,7 @@ static void do_line(char *work, const char *orig) {
 		}
 		if (tb->rootNode) { printf(" %u ", tb->rootNode->level); put_hash(tb->rootNode->hash); } else printf(" - -");
 		printf(" -");
+		g_root = tb->rootNode ? tb->rootNode->hash : NULL; g_rootLevel = tb->rootNode ? tb->rootNode->level : 0;
 		if (tb->rootNode) for (i = 0; i < nl; i++) dump_leaf(i, lh[i]);
 		for (i = 0; i < nl; i++) KSI_TreeLeafHandle_free(lh[i]);
 		KSI_TreeBuilder_free(tb);
@@ -125,6 +134,7 @@ static void do_line(char *work, const char *orig) {
 		}
 		if (bs->builder->rootNode) { printf(" %u ", bs->builder->rootNode->level); put_hash(bs->builder->rootNode->hash); } else printf(" - -");
 		putchar(' '); put_hash(bs->prevLeaf);
+		g_root = bs->builder->rootNode ? bs->builder->rootNode->hash : NULL; g_rootLevel = bs->builder->rootNode ? bs->builder->rootNode->level : 0;
 		if (bs->builder->rootNode) for (i = 0; i < nl; i++) dump_leaf(i, bh[i]->leafHandle);
 		for (i = 0; i < nl; i++) KSI_BlockSignerHandle_free(bh[i]);
 		KSI_BlockSigner_free(bs);
